@@ -24,8 +24,9 @@ import sys
 import threading
 import time
 
-RUN_DEADLINE_S = 25.0      # run() must have ended (returned or raised) by then
-EXIT_GRACE_S = 8.0         # after run() ended: executors and their children must be gone by then
+START_DEADLINE_S = 90.0    # the cluster must have registered by then, else the scenario is inconclusive (machine load)
+RUN_DEADLINE_S = 40.0      # measured from registration: run() must have ended (returned or raised) by then
+EXIT_GRACE_S = 30.0        # after run() ended: executors and their children must be gone by then
 
 KINDS = ["none", "raise", "sysexit", "osexit", "sigkill", "kill_ds", "kill_shm", "term_shm", "term_ds",
          "kill_sibling"]
@@ -230,6 +231,10 @@ def cleanup(sid: int, me: int, hosts: list[str]) -> None:
             except OSError:
                 pass
         time.sleep(0.05)
+    cleanup_files(hosts)
+
+
+def cleanup_files(hosts: list[str]) -> None:
     for h in hosts:
         for p in glob.glob(f"/dev/shm/sCasc{h}*") + glob.glob(f"/tmp/{h}.w*.socket"):
             try:
@@ -289,14 +294,20 @@ def run_scenario(sc: dict) -> dict:
         t0 = time.time()
         th = threading.Thread(target=body, daemon=True)
         th.start()
-        th.join(RUN_DEADLINE_S)
+        while th.is_alive() and "t_registered" not in result and time.time() - t0 < START_DEADLINE_S:
+            th.join(0.05)
+        if th.is_alive() and "t_registered" not in result:
+            obs["outcome"] = "not-started"
+            return obs
+        th.join(max(0.0, result.get("t_registered", t0) + RUN_DEADLINE_S - time.time()))
         t1 = time.time()
         if th.is_alive():
             obs["outcome"] = "hang"
         else:
             obs.update(result)
+        obs["registered"] = "t_registered" in result
+        obs["run_s"] = round(t1 - result.get("t_registered", t0), 2)
         obs.pop("t_registered", None)
-        obs["run_s"] = round(t1 - t0, 2)
         # executors (and everything they started) must now go away on their own
         grace_end = time.time() + EXIT_GRACE_S
         left = None
